@@ -18,7 +18,7 @@ USES = {
  'C12': ['Str', 'ParseInt', 'ParsePrim', 'ParseWith', 'ParseInt2'],
  'C13': ['Str', 'StrFns', 'ParserA', 'ParserB', 'ParseInt', 'ParseWith', 'ParseInt2'],
  'C14': ['Bytes', 'Bytes2', 'BytesTrim', 'StrFns', 'ParserA', 'ParserB', 'ParseInt'],
- 'C16': ['Cmp', 'Cmp2', 'Cmp3', 'Cmp4', 'Cmp5', 'Cmp7', 'ProbesMisc'],
+ 'C16': ['Cmp', 'Cmp2', 'Cmp3', 'Cmp4', 'Cmp5', 'Cmp6', 'Cmp7', 'ProbesMisc'],
  'C18': ['StrFns', 'ParserA', 'ProbesPm'],
  'C20': ['Chr', 'Slice', 'Concat', 'SliceConcat', 'CStr', 'CStr2'],
  'C19': ['ProbesOpt', 'ProbesMisc'],
